@@ -114,6 +114,70 @@ def eligible(prog):
     return out, names
 
 
+def name_lines_and_eligible(language, text, base):
+    """from the unmarked result alone (works for any text, generated or real): the line of each function's name token, and the
+    functions that neither enclose nor are nested in another reported function"""
+    from codelimit.common.lexer_utils import lex
+
+    tokens = [t for t in lex(pipeline.lexer_for(language), text, False) if t.is_name()]
+    name_line = {}
+    for i, m in enumerate(base):
+        start = tuple(m[1])
+        name_line[i] = next((t.location.line for t in tokens if t.value == m[0] and (t.location.line, t.location.column) >= start), None)
+    elig = []
+    for i, m in enumerate(base):
+        s, e = tuple(m[1]), tuple(m[2])
+        alone = all(j == i or tuple(o[2]) <= s or tuple(o[1]) >= e for j, o in enumerate(base))
+        if alone and name_line[i] is not None:
+            elig.append(i)
+    return name_line, elig
+
+
+PY_STUBS = ("def stub_one(): pass\n\n\nclass Proto:\n    def read(self): ...\n    def close(self): pass\n    x = 1\n\n\n"
+            "def stub_two(a, b): return a\n\n")
+
+
+def generic_program(ctx, language, text, rng, label, n_subsets):
+    """marked vs unmarked on ANY text: the unmarked run is the reference, so no canonical structure is required (real-world
+    files, Python files with body-less one-line defs that are normally not reported at all)"""
+    try:
+        base = analyze(language, text)
+    except Exception as e:
+        ctx.notes.append(f"base analysis raised {type(e).__name__} (C03's concern)")
+        return
+    name_line, elig = name_lines_and_eligible(language, text, base)
+    by_line = {}
+    for i, ln in name_line.items():
+        by_line.setdefault(ln, []).append(i)
+    elig = [i for i in elig if len(by_line[name_line[i]]) == 1]
+    if not elig:
+        return
+    for _ in range(n_subsets):
+        M = rng.sample(elig, rng.randint(1, min(4, len(elig))))
+        additions = {name_line[i]: spellings(language, rng) for i in M}
+        marked, spans = append_to_lines(text, additions)
+        case = {"language": language, "text": text, "additions": {str(k): v for k, v in additions.items()}, "decoy": False, "generic": True}
+        if not lexed_as_comment(language, marked, spans, text):
+            ctx.count("cases.invalid_marker_not_lexed_as_comment")
+            continue
+        ctx.eval()
+        try:
+            got = analyze(language, marked)
+        except Exception as e:
+            ctx.violation("exception_on_marked", case, {"error": f"{type(e).__name__}: {e}"})
+            continue
+        ctx.count("monitor.marked_relation_checked")
+        ctx.count("monitor.generic_" + label)
+        exp = [m for i, m in enumerate(base) if i not in M]
+        ctx.distinct([language, marked])
+        if got != exp:
+            es = {repr(x) for x in exp}
+            gs = {repr(x) for x in got}
+            ctx.violation("marked_relation", case, {"class": label, "markers": additions,
+                                                    "new_or_changed": [x for x in got if repr(x) not in es][:5],
+                                                    "missing": [x for x in exp if repr(x) not in gs][:5]})
+
+
 def analyze(language, text):
     _, ms = pipeline.analyze(language, text)
     return pipeline.measurements_as_lists(ms)
@@ -278,6 +342,16 @@ def run(shard, ctx):
         ctx.count("programs")
         one_program(ctx, lang, prog, rng, shard["random_subsets"])
     same_line_cases(ctx, lang, rng, 12 * (shard["programs"] // shard["parts"] + 1))
+    # real-world files and (Python) programs with body-less one-line defs in front: any text, the unmarked run is the reference
+    from vf.gen import hostile
+    files = hostile.corpus(lang)
+    for idx, (name, text) in enumerate(files):
+        if idx % shard["parts"] == shard["part"]:
+            generic_program(ctx, lang, text, rng, "corpus", 3)
+    for i in range(shard["programs"] // shard["parts"] + 1):
+        prog = canon.generate(lang, f"{shard['seed']}:c17g:{shard['part']}:{i}", FEATURES, target_functions=rng.randint(2, 5))
+        text = (PY_STUBS + prog.text) if lang == "Python" else prog.text
+        generic_program(ctx, lang, text, rng, "stubs_in_front" if lang == "Python" else "generated", 3)
 
 
 def replay(case, ctx):
@@ -287,6 +361,12 @@ def replay(case, ctx):
     base = analyze(lang, case["text"])
     got = analyze(lang, marked)
     ctx.eval()
+    if case.get("generic"):
+        name_line, elig = name_lines_and_eligible(lang, case["text"], base)
+        exp = [m for i, m in enumerate(base) if name_line[i] not in additions]
+        if got != exp:
+            ctx.violation("marked_relation", case, {"new_or_changed": [x for x in got if x not in exp][:5], "missing": [x for x in exp if x not in got][:5]})
+        return
     if case.get("same_line"):
         names_on = set()
         tokens = __import__("codelimit.common.lexer_utils", fromlist=["lex"]).lex(pipeline.lexer_for(lang), case["text"], False)
